@@ -185,6 +185,20 @@ def h_numbered_base_also_variable(E):
     return 'ok'
 
 
+def h_dependent_suffix(E):
+    """dependent formulas are evaluated with the grader's OWN suffix table: with metric_suffixes on, `2k*x` is a valid dependency and equals 2000 x"""
+    from mitxgraders import FormulaGrader, DependentSampler
+    SX = make_sym_sampler(E, 'x', 1, 2)
+    g = FormulaGrader(answers='d + c', variables=['x', 'd', 'c'], metric_suffixes=True,
+                      sample_from={'x': SX(), 'd': DependentSampler(formula='2k*x'), 'c': DependentSampler(formula='d*50%+1m')}, samples=2)
+    var_samples, _ = g.gen_var_and_func_samples('d + c', {}, ['d + c'])
+    for sample in var_samples:
+        E.check('dependent-consistent', sand(near_eq(sample['d'], 2000 * sample['x']), near_eq(sample['c'], sample['d'] * 0.5 + 0.001)))
+    r = g(None, 'c + 2000*x')
+    E.check('graded-correct', r['ok'] is True)
+    return 'ok'
+
+
 BAD_NUMBERED = ['a_{03}', 'a_{-0}', 'a_{1.5}', 'A_{1}', 'a_{}', 'a_{+1}', 'ab_{1}', 'a_{1}x', 'a_{1}_{2}']
 
 
@@ -253,6 +267,7 @@ def harnesses(tier):
         add(h_numbered, 'numbered', dict(case=case), 'numbered instances with negative / multi-digit indices')
     for hk in ('one', 'two', 'prefixes', 'special'):
         add(h_numbered_language, 'numbered_language', dict(heads=hk), 'regex language over all printable-ASCII strings, no length bound', validate=False)
+    add(h_dependent_suffix, 'dependent_suffix', {}, 'symbolic draws, metric and percent suffixes inside dependent formulas')
     add(h_numbered_base_also_variable, 'numbered_base_also_variable', {}, 'symbolic draws')
     for i in range(len(BAD_NUMBERED)):
         add(h_numbered_bad, 'numbered_bad', dict(i=i), repr(BAD_NUMBERED[i]))
